@@ -214,6 +214,31 @@ def cli_level(res, rng, tier):
                     else:
                         res.violation("skipping %s lowers the health score %s" % (skipped, detail),
                                       {"signature": sig, "project": "cli_project(12)", "select_full": full, "select_part": part})
+        # (2b) an analysis can also be switched off by the CONFIGURATION FILE (parts of the system analysis have no command-line switch): the score with a
+        # part switched off must not be lower than the score of the full run
+        full_sel = "complexity,deadcode,cbo,lcom,deps,clones"
+        if full_sel in runs:
+            for key, label in (("enable_architecture", "architecture validation"), ("enable_dependencies", "dependency analysis")):
+                cwd = os.path.join(tmp, "cwd_cfg_" + key)
+                os.makedirs(cwd)
+                cfgp = os.path.join(cwd, "off.toml")
+                with open(cfgp, "w") as fh:
+                    fh.write("[system_analysis]\n%s = false\n" % key)
+                rc, data, err = C.pyscn_json([proj], cwd, extra=["--select", full_sel, "--config", cfgp])
+                if data is None:
+                    continue
+                n_checked += 1
+                a, b = runs[full_sel]["health_score"], data["summary"]["health_score"]
+                if b < a:
+                    sig = {"kind": "skip", "analysis": key}
+                    k = C.classify(PID, sig)
+                    detail = "(CLI: 12-file project, full run scores %d, with `[system_analysis] %s = false` %d; arch_enabled=%s arch_compliance=%s)" % (
+                        a, key, b, data["summary"].get("arch_enabled"), data["summary"].get("arch_compliance"))
+                    if k:
+                        res.known_finding(k, detail)
+                    else:
+                        res.violation("switching the %s off in the configuration file lowers the health score %s" % (label, detail),
+                                      {"signature": sig, "project": "cli_project(12)", "config": "[system_analysis]\n%s = false" % key})
         # (1) reported score = real scoring code on the reported summary fields
         cases, exp = [], []
         for sel, s in runs.items():
